@@ -47,6 +47,7 @@ type taskRun struct {
 	savedRand *randState
 	harness   any
 	errs      []error
+	gid       int64 // the task's own goroutine; yield calls from any other goroutine are ignored
 }
 
 type sched struct {
@@ -69,6 +70,11 @@ func (s *sched) hook(site int) {
 	if s.quantum > 0 {
 		return
 	}
+	if goid() != t.gid {
+		// a goroutine the LIBRARY started: not a task, never holds the baton, runs freely; the task
+		// itself switches at its next yield point (goroutine identity is looked up only here: it is slow)
+		return
+	}
 	s.sig = mix(s.sig^uint64(t.id+1), uint64(site+3))
 	s.switches++
 	t.savedRand = simRand.cur
@@ -88,6 +94,7 @@ func (s *sched) runTask(t *taskRun) {
 		s.cur = nil
 		s.yielded <- struct{}{}
 	}()
+	t.gid = goid()
 	<-t.resume
 	simRand.cur = nil
 	errSink = &t.errs
